@@ -1193,12 +1193,12 @@ def run_test(ctx: FunctionContext) -> TestResult:
     elif counter["err"] > 0:
         passfail = color_error("[ERROR]")
         exitcode = Exitcode.EXCEPTION.value
-    elif counter["unknown"] > 0:
-        passfail = color_warn("[TIMEOUT]")
-        exitcode = Exitcode.TIMEOUT.value
     elif len(stuck) > 0:
         passfail = color_error("[ERROR]")
         exitcode = Exitcode.STUCK.value
+    elif counter["unknown"] > 0:
+        passfail = color_warn("[TIMEOUT]")
+        exitcode = Exitcode.TIMEOUT.value
     elif normal == 0:
         passfail = color_error("[ERROR]")
         exitcode = Exitcode.REVERT_ALL.value
